@@ -162,6 +162,11 @@ func (a *UtilArgs) readInputFilePrivKey() (peer.Peer, error) {
 	if err != nil {
 		return nil, err
 	}
+	if key == nil {
+		// ParsePrivKeyPem returns nil, nil if the input does not contain a pem block.
+		// note: peer.NewPeer(nil) would generate a new random key.
+		return nil, errors.New("no pem private key found in input")
+	}
 
 	le := a.GetLogger()
 	npeer, err := peer.NewPeer(key)
@@ -182,6 +187,10 @@ func (a *UtilArgs) readInputFilePubKey() (peer.Peer, error) {
 	key, err := keypem.ParsePubKeyPem(dat)
 	if err != nil {
 		return nil, err
+	}
+	if key == nil {
+		// ParsePubKeyPem returns nil, nil if the input does not contain a pem block.
+		return nil, errors.New("no pem public or private key found in input")
 	}
 
 	le := a.GetLogger()
